@@ -23,8 +23,8 @@ FEATURES = {'zinc.tab-position': 'for text containing a TAB the reported column 
 EXCL = frozenset()
 EXCLUDED = {'n': 0}
 EXHAUSTIVE_CLAIM = True
-EDIT_CHARS_QUICK = ['"', '\\', ',', '\n', ' ', ':', '[', '}', 'N', '1', '`', '<']
-EDIT_CHARS = EDIT_CHARS_QUICK + [']', '{', '>', '(', ')', '@', '-', '.', 'T', 'e', '\r', '\x00', u'\xe9', '_', 'Z', '$']
+EDIT_CHARS_QUICK = ['"', '\\', ',', '\n', ' ', ':', '[', '}', 'N', '1', '`', '<', '\r', '{']
+EDIT_CHARS = EDIT_CHARS_QUICK + [']', '>', '(', ')', '@', '-', '.', 'T', 'e', '\x00', u'\xe9', '_', 'Z', '$', '\x0c', u'\x85', u'\u2028', '%']
 
 
 class Timeout(Exception):
@@ -225,6 +225,9 @@ def breaker_docs(ver, filler, k):
         yield 'illegal-meta-tag', doc(header='ver:"%s" %s:1' % (ver, bad))
         yield 'illegal-column-meta-tag', doc(cols='a,b %s:"x",c' % bad)
     yield 'too-few-columns-line', '\n'.join([head, '', '1', ''])
+    for sep in ('\r', '\x0b', '\x0c', '\x1c', '\x1e', u'\x85', u'\u2028', u'\u2029', ' ', '\t'):
+        # only LF / CRLF end a line: with any other separator there is no column line at all
+        yield 'lines-not-separated-by-LF', doc().replace('\n', sep)
     if ver == '3.0':
         for good, variants in (('[1,2]', ['[1,2', '1,2]x', '[1,[2]', '[1,2]]']), ('{a:1 b}', ['{a:1 b', 'a:1 b}', '{a:1 {b}', '{a:1 b}}']),
                                ('<<ver:"3.0"\nx\n1\n>>', ['<<ver:"3.0"\nx\n1\n', 'ver:"3.0"\nx\n1\n>>', '<<ver:"3.0"\nx\n1\n>'])):
@@ -237,12 +240,25 @@ def breaker_docs(ver, filler, k):
             yield '3.0-construct-under-2.0', '\n'.join(['ver:"2.0" m:%s' % v3, 'a', '1', ''])
 
 
+BOUNDARY_SCALARS = [
+    '0001-01-01T00:00:00+10:00 Brisbane', '0001-01-01T00:00:00+14:00 Kiritimati', '9999-12-31T23:59:59-10:00 Honolulu',
+    '9999-12-31T23:59:59-12:00 GMT+12', '0001-01-01T00:00:00Z UTC', '0001-01-01T00:00:00+00:01', '9999-12-31T23:59:59.999999Z',
+    '0000-01-01', '9999-99-99', '2020-02-30', '2020-13-01T00:00:00Z', '24:00:00', '23:59:60', '12:00:00.1234567890123',
+    '2020-01-01T00:00:00+99:99 UTC', '2020-01-01T00:00:00Z Nowhere_Land', '1e999', '-1e999', '1e-999', '9' * 400, '0.' + '9' * 400,
+    '1' + '_' * 50 + '0', 'C(91,181)', 'C(1e5,2)', 'C(,)', 'C(-,-)', '@', '@ "x"', 'Bin()', 'Bin(', '""', '``', '"\\u"', '"\\ud800"',
+    '"\\udfff\\ud800"', '`\\u12`', 'T' * 50, 'NA' * 30, '[' * 3 + ']' * 3, '{' * 3 + '}' * 3, '<<' * 2 + '>>' * 2, '{a:{b:{c:1}}}',
+    '[[[1]]]', '5' + u'\xb5' * 100, '1kW' * 20, '- 1', '--1', '+1', '.5', '5.', '1e', '1e+', 'INFkW', 'NaNm', '-NaN', 'inf', 'nan',
+    u'\ufeff1', u'1\u2028', 'hex("zz")', 'b64("!!!")', 'hex("abc")', 'Foo("' + 'x' * 300 + '")', 'x' * 5000,
+]
+
+
 def plan(tier, seed, excl):
     q = tier == 'quick'
     ndocs = 16 if q else 64
     t = [('edits', {'doc': i, 'ndocs': ndocs, 'sub': j, 'nsub': 4}) for i in range(ndocs) for j in range(4)]
     t += [('splices', {'ndocs': ndocs, 'shard': i, 'of': 8}) for i in range(8)]
     t += [('breakers', {'shard': i, 'of': 4}) for i in range(4)]
+    t.append(('boundary-scalars', {}))
     t += [('random-text', {'shard': i, 'n': 400 if q else 12000}) for i in range(8)]
     t += [('random-scalar', {'shard': i, 'n': 2500 if q else 60000}) for i in range(4)]
     # coverage-guided campaigns (atheris/libFuzzer) with the same oracle inside the target; one starts from an empty corpus
@@ -250,7 +266,7 @@ def plan(tier, seed, excl):
     return t
 
 
-TOKENS = ['ver:"3.0"', 'ver:"2.0"', '\n', '\n', ',', ' ', 'a', 'b', 'dis:', '"x"', '"', '`u`', '`', '@r', '@r "d"', 'N', 'M', 'R', 'NA',
+TOKENS = ['0001-01-01T00:00:00+10:00 Brisbane', '9999-12-31T23:59:59-10:00 Honolulu', '0001-01-01', '9999-12-31', 'ver:"3.0"', 'ver:"2.0"', '\n', '\n', ',', ' ', 'a', 'b', 'dis:', '"x"', '"', '`u`', '`', '@r', '@r "d"', 'N', 'M', 'R', 'NA',
           'T', 'F', '1', '-1.5e3', '5kW', 'INF', '-INF', 'NaN', '2020-01-01', '12:00:00', '2020-01-01T00:00:00Z UTC',
           '2020-01-01T00:00:00+10:00 Brisbane', 'C(1,2)', 'Bin(text/plain)', 'Bin("x")', 'Foo("x")', '[', ']', '{', '}', '<<', '>>',
           ':', '\\', '\\u00e9', '\r\n', '\n\n', '_', '.', '-', '(', ')', '$', 'e', 'Z', '0', '9999', '\t', '*', '\x00', u'\xe9', u'\U0001F600']
@@ -352,6 +368,22 @@ def _run(part, args, env, acc, tier):
                     if n % 1501 == 1:
                         acc.sample({'breaker': what, 'text': t})
         acc.bulk(n, n)
+    elif part == 'boundary-scalars':
+        n = 0
+        for t in BOUNDARY_SCALARS:
+            for ver in ('2.0', '3.0'):
+                n += 1
+                try:
+                    r = check_scalar_text(t, ver)
+                    acc.label('boundary-scalar:' + r)
+                    # the same token as a cell and as a metadata value of a grid
+                    for doc in ('ver:"%s"\na\n%s\n' % (ver, t), 'ver:"%s" m:%s\na\n1\n' % (ver, t)):
+                        check_text(doc, acc)
+                        n += 1
+                except Violation as v:
+                    acc.violation(v)
+        acc.bulk(n, n)
+        acc.sample({'scalar': BOUNDARY_SCALARS[0], 'ver': '3.0'})
     elif part == 'atheris':
         from .. import fuzz
         import os
